@@ -11,6 +11,7 @@ import (
 	"github.com/llir/llvm/ir/constant"
 	"github.com/llir/llvm/ir/metadata"
 	"github.com/llir/llvm/ir/types"
+	"github.com/llir/llvm/ir/value"
 
 	"verif/fw"
 )
@@ -85,6 +86,11 @@ var (
 	reNamedMD   = regexp.MustCompile(`(?m)^!(.*) = !\{!(\d+)\}$`)
 	reAttrFn    = regexp.MustCompile(`(?m)^declare void @zza(\d+)\(\) #(\d+)$`)
 	reAttrGrp   = regexp.MustCompile(`(?s)attributes #(\d+) = \{ "(.*?)" \}\n`)
+	reGlobalRef = regexp.MustCompile(`(?m)^@zzr(\d+) = global i32\* @(.*)$`)
+	reCallee    = regexp.MustCompile(`(?s)define void @zzk(\d+)\(\) \{\n  call void @(.*?)\(\)\n  ret void\n\}`)
+	reInstRes   = regexp.MustCompile(`(?s)define i32 @zzi(\d+)\(i32 %zzp\) \{\n  %(.*?) = add i32 %zzp, \d+\n  ret i32 %(.*?)\n\}`)
+	reParamRef  = regexp.MustCompile(`(?s)define i32 @zzq(\d+)\(i32 %(.*?)\) \{\n  ret i32 %(.*?)\n\}`)
+	reInvokeRes = regexp.MustCompile(`(?s)define i32 @zzv(\d+)\(\) personality [^\n]* \{\n  %(.*?) = invoke i32 @zzcallee\(\)\n\s+to label %zzok unwind label %zzlp\n\nzzok:[^\n]*\n  ret i32 %(.*?)\n\nzzlp:`)
 	reLabel     = regexp.MustCompile(`(?m)^define void @zzb(\d+)\(\) \{\n  br label %.*\n\n(.*):\s*(?:;.*)?\n`)
 )
 
@@ -99,6 +105,20 @@ func byIndex(n int, ms [][]string, idxGroup, valGroup int, dec func(string) stri
 		if i >= 0 && i < n {
 			out[i] = dec(m[valGroup])
 		}
+	}
+	return out
+}
+
+// defUse folds regexp matches (index, definition token, use token) into (index, token), marking
+// matches whose use token differs from the definition token.
+func defUse(ms [][]string) [][]string {
+	var out [][]string
+	for _, m := range ms {
+		v := m[2]
+		if m[3] != m[2] {
+			v = m[2] + " <> " + m[3]
+		}
+		out = append(out, []string{m[0], m[1], v})
 	}
 	return out
 }
@@ -194,6 +214,144 @@ func c11positions() []c11pos {
 			},
 			llvm: func(out string, n int) []string {
 				return byIndex(n, reComdatUse.FindAllStringSubmatch(out, -1), 1, 2, decodeIdent)
+			}},
+		// --- definition AND use: the reference must resolve to the definition -----------------
+		{name: "global-ref", kind: "ident",
+			build: func(m *ir.Module, i int, s string) {
+				g := m.NewGlobalDef(s, constant.NewInt(types.I32, int64(i)))
+				m.NewGlobalDef(fmt.Sprintf("zzr%d", i), g)
+			},
+			extract: func(m *ir.Module) []string {
+				var o []string
+				for _, g := range m.Globals {
+					if r, ok := g.Init.(*ir.Global); ok {
+						o = append(o, r.GlobalName)
+					}
+				}
+				return o
+			},
+			llvm: func(out string, n int) []string {
+				return byIndex(n, reGlobalRef.FindAllStringSubmatch(out, -1), 1, 2, decodeIdent)
+			}},
+		{name: "callee", kind: "ident",
+			build: func(m *ir.Module, i int, s string) {
+				callee := m.NewFunc(s, types.Void)
+				f := voidFn(m, fmt.Sprintf("zzk%d", i))
+				b := f.NewBlock("")
+				b.NewCall(callee)
+				b.NewRet(nil)
+			},
+			extract: func(m *ir.Module) []string {
+				var o []string
+				for _, f := range m.Funcs {
+					if len(f.Blocks) == 1 && len(f.Blocks[0].Insts) == 1 {
+						if call, ok := f.Blocks[0].Insts[0].(*ir.InstCall); ok {
+							if cf, ok := call.Callee.(*ir.Func); ok {
+								o = append(o, cf.GlobalName)
+							} else {
+								o = append(o, fmt.Sprintf("\x00<%T>", call.Callee))
+							}
+						}
+					}
+				}
+				return o
+			},
+			llvm: func(out string, n int) []string {
+				return byIndex(n, reCallee.FindAllStringSubmatch(out, -1), 1, 2, decodeIdent)
+			}},
+		{name: "inst-result", kind: "ident",
+			build: func(m *ir.Module, i int, s string) {
+				p := ir.NewParam("zzp", types.I32)
+				f := m.NewFunc(fmt.Sprintf("zzi%d", i), types.I32, p)
+				b := f.NewBlock("")
+				r := b.NewAdd(p, constant.NewInt(types.I32, int64(i)))
+				r.SetName(s)
+				b.NewRet(r)
+			},
+			extract: func(m *ir.Module) []string {
+				var o []string
+				for _, f := range m.Funcs {
+					v := "\x00<shape>"
+					if len(f.Blocks) == 1 && len(f.Blocks[0].Insts) == 1 {
+						if add, ok := f.Blocks[0].Insts[0].(*ir.InstAdd); ok {
+							v = add.LocalName
+							if ret, ok := f.Blocks[0].Term.(*ir.TermRet); !ok || ret.X != value.Value(add) {
+								v += "\x00<use does not resolve to the definition>"
+							}
+						}
+					}
+					o = append(o, v)
+				}
+				return o
+			},
+			llvm: func(out string, n int) []string {
+				return byIndex(n, defUse(reInstRes.FindAllStringSubmatch(out, -1)), 1, 2, decodeIdent)
+			}},
+		{name: "param-ref", kind: "ident",
+			build: func(m *ir.Module, i int, s string) {
+				p := ir.NewParam(s, types.I32)
+				f := m.NewFunc(fmt.Sprintf("zzq%d", i), types.I32, p)
+				f.NewBlock("").NewRet(p)
+			},
+			extract: func(m *ir.Module) []string {
+				var o []string
+				for _, f := range m.Funcs {
+					v := f.Params[0].LocalName
+					if ret, ok := f.Blocks[0].Term.(*ir.TermRet); !ok || ret.X != value.Value(f.Params[0]) {
+						v += "\x00<use does not resolve to the definition>"
+					}
+					o = append(o, v)
+				}
+				return o
+			},
+			llvm: func(out string, n int) []string {
+				return byIndex(n, defUse(reParamRef.FindAllStringSubmatch(out, -1)), 1, 2, decodeIdent)
+			}},
+		{name: "invoke-result", kind: "ident",
+			build: func(m *ir.Module, i int, s string) {
+				var pers, callee *ir.Func
+				for _, f := range m.Funcs {
+					switch f.GlobalName {
+					case "zzpers":
+						pers = f
+					case "zzcallee":
+						callee = f
+					}
+				}
+				if pers == nil {
+					pers = m.NewFunc("zzpers", types.I32)
+					pers.Sig.Variadic = true
+					callee = m.NewFunc("zzcallee", types.I32)
+				}
+				f := m.NewFunc(fmt.Sprintf("zzv%d", i), types.I32)
+				f.Personality = pers
+				e, ok, lp := f.NewBlock(""), f.NewBlock("zzok"), f.NewBlock("zzlp")
+				inv := e.NewInvoke(callee, nil, ok, lp)
+				inv.SetName(s)
+				ok.NewRet(inv)
+				l := lp.NewLandingPad(types.NewStruct(types.I8Ptr, types.I32))
+				l.Cleanup = true
+				lp.NewRet(constant.NewInt(types.I32, 0))
+			},
+			extract: func(m *ir.Module) []string {
+				var o []string
+				for _, f := range m.Funcs {
+					if len(f.Blocks) != 3 {
+						continue
+					}
+					v := "\x00<shape>"
+					if inv, ok := f.Blocks[0].Term.(*ir.TermInvoke); ok {
+						v = inv.LocalName
+						if ret, ok := f.Blocks[1].Term.(*ir.TermRet); !ok || ret.X != value.Value(inv) {
+							v += "\x00<use does not resolve to the definition>"
+						}
+					}
+					o = append(o, v)
+				}
+				return o
+			},
+			llvm: func(out string, n int) []string {
+				return byIndex(n, defUse(reInvokeRes.FindAllStringSubmatch(out, -1)), 1, 2, decodeIdent)
 			}},
 		{name: "metadata-name", kind: "ident",
 			build: func(m *ir.Module, i int, s string) {
@@ -466,6 +624,8 @@ func c11class(s string) string {
 		}
 	}
 	switch {
+	case len(s) > 2 && s[0] == '"' && s[len(s)-1] == '"' && (digits == len(s)-2 || (digits == len(s)-3 && (s[1] == '+' || s[1] == '-'))):
+		return "number-between-quote-characters"
 	case len(s) > 1 && (s[0] == '+' || s[0] == '-') && digits == len(s)-1:
 		return "signed-number"
 	case digits == len(s) && len(s) > 0:
@@ -535,7 +695,7 @@ func c11names(quick bool) (idents []string, withNul []string) {
 func runC11(c *fw.Check) {
 	idents, withNul := c11names(c.Quick())
 	poss := c11positions()
-	c.Rule = fmt.Sprintf("ALL byte strings of length 1-2 over 0x01..0xFF (65280), ALL strings of length 3..%d over a 16-class alphabet {0 9 a - . $ _ space \" \\ 5 C 0x01 0x7F 0x80 0xFF}, escape-like sequences, 20+-digit names and keywords, in EACH of 14 positions (global, local, label, type, comdat and metadata names; attribute, section, partition, gc, inline-asm and metadata strings; character arrays, the last two also with NUL bytes): built through the API, printed, re-parsed by the library (bytes must come back identically; an ID must not come back as a name or vice versa) and read by llvm-as|llvm-dis whose tokens are decoded by an independent un-escaper; printed tokens of distinct names must be distinct. distinct = (position, byte string).", map[bool]int{true: 4, false: 5}[c.Quick()])
+	c.Rule = fmt.Sprintf("ALL byte strings of length 1-2 over 0x01..0xFF (65280), ALL strings of length 3..%d over a 16-class alphabet {0 9 a - . $ _ space \" \\ 5 C 0x01 0x7F 0x80 0xFF}, escape-like sequences, 20+-digit names and keywords, in EACH of 19 positions (global, local, label, type, comdat and metadata names; referenced globals, callees, instruction results, invoke results and parameters together with a use that must resolve to them; attribute, section, partition, gc, inline-asm and metadata strings; character arrays, the last two also with NUL bytes): built through the API, printed, re-parsed by the library (bytes must come back identically; an ID must not come back as a name or vice versa) and read by llvm-as|llvm-dis whose tokens are decoded by an independent un-escaper; printed tokens of distinct names must be distinct. distinct = (position, byte string).", map[bool]int{true: 4, false: 5}[c.Quick()])
 	c.Extra["byte_strings"] = len(idents)
 	c.Extra["positions"] = len(poss)
 	const chunk = 4000
